@@ -1,5 +1,5 @@
 #!/usr/bin/env python3
-"""usage: tools/try_mutants.py <Cnn> <candidates.json> [--install]
+"""usage: tools/try_mutants.py <Cnn> <candidates.json> [--install [--append]]
 
 Evaluates independently produced mutants (list of {name,file,old,new,desc,equivalent})
 against the property's rules through the checker's in-memory overlay mechanism
@@ -17,14 +17,20 @@ cands = json.load(open(path))
 env = dict(os.environ, GOFLAGS='-mod=mod', GOPROXY='off', GOSUMDB='off', GOTOOLCHAIN='local')
 env.pop('GOWORK', None)
 
-# number of built-in mutants: run with an absurd index? use a scratch verif root that has only this candidate list
+# The candidates are evaluated against a scratch verif root (copy of known_findings.json and
+# properties.jsonl plus mutants_extra/<Cnn>.json = the candidates), so the live
+# /verif/mutants_extra is never touched while a registered check may be running.
 extra_dir = os.path.join(root, 'mutants_extra')
 os.makedirs(extra_dir, exist_ok=True)
 dst = os.path.join(extra_dir, pid + '.json')
-backup = open(dst).read() if os.path.exists(dst) else None
+scratch = tempfile.mkdtemp(prefix='gsa-try-')
+os.makedirs(os.path.join(scratch, 'mutants_extra'))
+for f in ('known_findings.json', 'properties.jsonl'):
+    shutil.copy(os.path.join(root, f), os.path.join(scratch, f))
+gsa = os.environ.get('GSA_BIN', os.path.join(root, 'bin', 'gsa'))
 
 def builtin_count():
-    r = subprocess.run([os.environ.get('GSA_BIN', os.path.join(root, 'bin', 'gsa')), '-property', pid, '-nbuiltin'], capture_output=True, text=True, env=env, cwd=root)
+    r = subprocess.run([gsa, '-property', pid, '-nbuiltin'], capture_output=True, text=True, env=env, cwd=root)
     return int(r.stdout.strip().splitlines()[-1])
 
 ok = []
@@ -34,13 +40,13 @@ for c in cands:
         print('%-40s skipped (fragment not present exactly once)' % c['name'])
         continue
     ok.append(c)
-json.dump(ok, open(dst, 'w'), indent=1)
+json.dump(ok, open(os.path.join(scratch, 'mutants_extra', pid + '.json'), 'w'), indent=1)
 base = builtin_count()
 keep = []
 missed = []
 try:
     for i, c in enumerate(ok):
-        r = subprocess.run([os.environ.get('GSA_BIN', os.path.join(root, 'bin', 'gsa')), '-property', pid, '-tier', 'quick', '-mutant', str(base + i)],
+        r = subprocess.run([gsa, '-property', pid, '-tier', 'quick', '-verif', scratch, '-evidence', os.path.join(scratch, 'ev.json'), '-mutant', str(base + i)],
                            capture_output=True, text=True, env=env, cwd=root)
         code = r.returncode
         eq = bool(c.get('equivalent'))
@@ -64,14 +70,17 @@ try:
             good = code in (10, 13)
         (keep if good else missed).append(c)
 finally:
+    shutil.rmtree(scratch, ignore_errors=True)
     if install:
+        # --install replaces the list; --append (with --install) merges by name into the existing one
+        if '--append' in sys.argv and os.path.exists(dst):
+            cur = json.load(open(dst))
+            names = {m['name'] for m in cur}
+            keep = cur + [m for m in keep if m['name'] not in names]
         json.dump(keep, open(dst, 'w'), indent=1, ensure_ascii=False)
         mp = os.path.join(extra_dir, pid + '.missed.json')
-        if missed:
-            json.dump(missed, open(mp, 'w'), indent=1, ensure_ascii=False)
-        elif os.path.exists(mp):
-            os.remove(mp)
-    elif backup is not None:
-        open(dst, 'w').write(backup)
-    else:
-        os.remove(dst)
+        if '--append' not in sys.argv:
+            if missed:
+                json.dump(missed, open(mp, 'w'), indent=1, ensure_ascii=False)
+            elif os.path.exists(mp):
+                os.remove(mp)
